@@ -359,6 +359,8 @@ class _rewrite_captured_vars(ast.NodeTransformer):
 class _resolve_called_lambdas(ast.NodeTransformer):
     "Resolve any `(lambda x: x + 1)(y)` calls into just `y + 1`."
 
+    _rename_counter = 0
+
     def __init__(self):
         self._arg_map_list = []
 
@@ -366,21 +368,46 @@ class _resolve_called_lambdas(ast.NodeTransformer):
         # Check if the function being called is a lambda
         if isinstance(node.func, ast.Lambda):
             lambda_node = node.func
+            param_names = [a.arg for a in lambda_node.args.args]
 
-            # Ensure the lambda has arguments and a body
-            if len(lambda_node.args.args) == len(node.args):
-                arg_map = {
-                    lambda_node.args.args[i].arg: self.visit(node.args[i])
-                    for i in range(len(lambda_node.args.args))
-                }
+            # Bind positional and keyword arguments the way python does. If they do not
+            # cover the parameters exactly, leave the call alone (but look inside it).
+            arg_map = {name: self.visit(a) for name, a in zip(param_names, node.args)}
+            for k in node.keywords:
+                if k.arg is not None and k.arg in param_names and k.arg not in arg_map:
+                    arg_map[k.arg] = self.visit(k.value)
+            n_given = len(node.args) + len(node.keywords)
+            if len(arg_map) == len(param_names) and n_given == len(param_names):
                 self._arg_map_list.append(arg_map)
-
-                result = self.generic_visit(lambda_node.body)
+                result = self.visit(lambda_node.body)
                 self._arg_map_list.pop()
                 return result
-        else:
-            return self.generic_visit(node)
-        return node
+        return self.generic_visit(node)
+
+    def visit_Lambda(self, node: ast.Lambda) -> Any:
+        """Parameters of a nested lambda hide arguments of the same name, and must not
+        capture a name that is free in an argument we are substituting."""
+        free_in_args = {
+            n.id
+            for arg_map in self._arg_map_list
+            for v in arg_map.values()
+            for n in ast.walk(v)
+            if isinstance(n, ast.Name)
+        }
+        mapping = {}
+        new_args = copy.copy(node.args)
+        new_args.args = []
+        for a in node.args.args:
+            new_name = a.arg
+            if a.arg in free_in_args:
+                _resolve_called_lambdas._rename_counter += 1
+                new_name = f"{a.arg}_r{_resolve_called_lambdas._rename_counter}"
+            mapping[a.arg] = ast.Name(new_name, ast.Load())
+            new_args.args.append(ast.arg(arg=new_name, annotation=None))
+        self._arg_map_list.append(mapping)
+        new_body = self.visit(node.body)
+        self._arg_map_list.pop()
+        return ast.Lambda(new_args, new_body)
 
     def visit_Name(self, node: ast.Name) -> Any:
         "Look through the arg map to see if it is a argument"
